@@ -72,6 +72,16 @@ def check_offsets(case: typing.Any, ctx: Ctx) -> Info:
     for i, ((f, off), expected_field) in enumerate(zip(got, fields)):
         require(f is expected_field, "field-order", repr(expected_field), repr(f), name)
         _check_offset(off, field_offset_tree(body, i, start), ctx.extra, "field %d (%s) of %s base %s" % (i, f.name, name, base))
+    # the same object asked again with other bases (a second question must not be answered from the first one: the bases may agree
+    # in min, max and residues mod 32 - the library's approximate set equality - and still differ)
+    for base_n in case.get("more_bases", []):
+        start_n: typing.Any = ("pad", _base_tree(base_n), 8)
+        if spec[0] == "delim":
+            start_n = ("cat", (start_n, ("leaf", (32,))))
+        got_n, _ = guarded(lambda: list(t.iterate_fields_with_offsets(pydsdl.BitLengthSet(base_n))), what="iterate_fields_with_offsets:again")
+        require(len(got_n) == len(fields), "field-count", len(fields), len(got_n), name)
+        for i, (f, off) in enumerate(got_n):
+            _check_offset(off, field_offset_tree(body, i, start_n), ctx.extra, "field %d (%s) of %s base %s (asked after base %s)" % (i, f.name, name, base_n, base))
     if body[0] == "union" and len(got) > 1:
         first = got[0][1]
         for f, off in got[1:]:
@@ -268,9 +278,21 @@ def _cases() -> st.SearchStrategy:
                 ),
                 "values": st.lists(gt.values(layout.freeze(spec)), min_size=1, max_size=4),
             }
-        )
+        ).flatmap(lambda c: more_bases(c["base"]).map(lambda m: dict(c, more_bases=m)))
 
-    return gt.composites(gt.small_capacity(), max_leaves=8).flatmap(with_values)
+    def more_bases(base: typing.List[int]) -> st.SearchStrategy:
+        lookalike = st.tuples(st.integers(2, 5), st.lists(st.integers(1, 4), min_size=1, max_size=2)).map(
+            lambda t: sorted({base[0], base[0] + 32 * t[0]} | {base[0] + 32 * (j % t[0]) for j in t[1]})
+        )
+        # [sparse, dense] pairs agreeing in min / max / residues mod 32, the drawn base itself again, or an unrelated one
+        pair = st.tuples(st.integers(2, 5), st.integers(1, 4), st.booleans()).map(
+            lambda t: (lambda sparse, dense: [sparse, dense] if t[2] else [dense, sparse])([base[0], base[0] + 32 * t[0]], sorted({base[0], base[0] + 32 * (t[1] % t[0] or 1), base[0] + 32 * t[0]}))
+        )
+        return st.one_of(st.just([]), lookalike.map(lambda b: [b]), pair, st.lists(st.integers(0, 130), min_size=1, max_size=3, unique=True).map(lambda b: [sorted(b)]))
+
+    from . import c02
+
+    return st.one_of(gt.composites(gt.small_capacity(), max_leaves=8), gt.composites(gt.small_capacity(), max_leaves=8), c02._stress_specs()).flatmap(with_values)
 
 
 def _array_cases() -> st.SearchStrategy:
